@@ -53,7 +53,9 @@ BagEq(a, b) == Len(a) = Len(b) /\ \A m \in Rng(a) : Count(a, m) = Count(b, m)
 SubBagOf(b, a) == \A m \in Rng(b) : Count(b, m) <= Count(a, m)
 \* a reading session with a tiny queue may still lose messages of a step that
 \* produces several at once (the router never waits for it): it receives a sub-bag
-SmallQueue(s) == s \in DOMAIN sess' /\ sess'[s].cap < 8
+\* (any queue: a step that produces more messages for one session than its queue holds may lose the
+\* surplus even though the session reads - whether its reader keeps up is a matter of scheduling)
+SmallQueue(s) == s \in DOMAIN sess'
 
 \* orders the properties state within one step (C18): m1 must precede m2
 MetaOrder(m1, m2) ==
@@ -301,7 +303,7 @@ TrBurst ==
                             q == LoggedFor(r, s)
                             b == [i \in DOMAIN q |-> Blur(q[i])]
                         IN IF s \in DOMAIN sess /\ sess[s].stalled THEN b = <<>>       \* a session that does not read gets nothing now
-                           ELSE IF SmallQueue(s) /\ Len(Proj(a)) > sess[s].cap
+                           ELSE IF s \in DOMAIN sess /\ Len(Proj(a)) > sess[s].cap
                            THEN SubBagOf(Proj(b), Proj(a)) /\ Len(Proj(b)) >= sess[s].cap   \* tiny queue: may lose part of a burst
                            ELSE BagEq(Proj(a), Proj(b))                                \* everybody else: complete (C07)
           ELSE IF r.in.how = "slow"
